@@ -134,6 +134,7 @@ def other_environment(tool, src_path, scratch, nouts):
     return outs
 
 
+@driver.hang_is_failure(lambda why: ('fail', why, {}))
 def check(tool, text, scratch, with_exe):
     ext = 'x' if tool == 'x' else 'S'
     sp = os.path.join(scratch, 'p.' + ext)
